@@ -72,6 +72,12 @@ func inspectDirectory(f string, remainingDepth int) {
 		p := filepath.Join(f, e.Name())
 		if e.IsDir() {
 			inspectDirectory(p, remainingDepth-1)
+		} else if s, err := os.Stat(p); err != nil {
+			log.Printf("error processing file %#v: %v", p, err)
+		} else if !s.Mode().IsRegular() {
+			// FIFOs (opening one blocks until a writer appears), sockets, devices,
+			// links to directories
+			log.Printf("error processing file %#v: %v", p, file.ErrNotRegularFile)
 		} else {
 			inspectFile(p)
 		}
